@@ -1,18 +1,20 @@
 """C18 - repozo recover reproduces the backed-up data file byte for byte; verify detects damage.
 
-1. TLC checks the design (ZRepozo with both deviation constants cleared) for all 16 option combinations:
+1. TLC checks the design (ZRepozo with every deviation constant cleared) for all 16 option combinations:
    RecoverExact, VerifyDetects, BackupOnlyCompleteTxns (+ IncrWithinFile, RepoShape, ObsDerived).
-2. With a deviation constant set to the behaviour of the code TLC exhibits the violation
-   (QuickTrustsEmptyRange: F14, quick mode trusting the md5 of an empty range; ChainByListing: F18, the chain
-   taken from the directory listing alone; NoopPackRewrites: a pack that frees nothing rewriting the data file,
-   which quick mode - size + last backed-up range - cannot notice).  Each counterexample is replayed on the real code to its end: if
-   the code shows the violation the constant stays set for step 3 (and the violation is reported with its
-   structural signature), if the property holds on it the repaired behaviour is the model of this tree.
-3. TLC dumps the whole state graph of that model; every transition is replayed on a real FileStorage + the
-   real repozo functions (zv/drivers/repozo_graph.py: depth-first with checkpoints), every state's recoveries
-   (all run dates) and verifications (full, quick) are real calls compared with what TLC printed for that
-   state (conformance) and with what the property demands (`want`, `must`), every Damage transition is applied,
-   observed and undone.
+2. One deviation constant at a time is set to the behaviour of the code and TLC exhibits the violated clause:
+   QuickTrustsEmptyRange (F14), NoopPackRewrites (a pack that frees nothing rewriting the file - what quick mode
+   could not notice), ChainByListing (F18: verify / recover follow the directory listing), VerifyNewestOnly (older
+   generations are never verified), SameStampAllowed (two runs within one clock second), ShortDateStrict (a truncated
+   -D excludes the backup taken at that instant).  Each counterexample is replayed on the real code to its end: if
+   the code shows that violation the constant stays set for step 3 (and the violation is reported with its structural
+   signature), if the property holds on it the repaired behaviour is the model of this tree.
+3. TLC dumps the whole state graph of that model (a graph with every kind of run and damage to every file, and a
+   longer one with an advancing clock); every transition is replayed on a real FileStorage + the real repozo
+   functions (zv/drivers/repozo_graph.py: depth-first with checkpoints), every state's recoveries (every clock
+   second; full date, -w, truncated date) and verifications (full, quick) are real calls compared with what TLC
+   printed for that state (conformance) and with what the property demands (`want`, `must`), every Damage transition
+   is applied, observed and undone.
 """
 import hashlib
 import os
@@ -32,8 +34,12 @@ ASSUME = ['TLC results are exhaustive only within the stated constants (chunks, 
           'replays); every transaction writes the same object: a pack to the time after the k-th transaction frees the k-1 before it and changes every remaining byte range (asserted by the driver), k = 1 frees nothing and must leave the file alone (a file that changed all the same is taken as it is and the recovery judged against it)',
           'md5 is modelled as injective; gzip, md5 and the FileStorage format are exercised only as far as the replays go',
           'fsync is a no-op in the replays (durability of the backup files is not part of C18)',
-          'damage is one file of the newest chain: removed, truncated (seeded cut), or one byte altered (seeded position; '
-          'for gzip files inside the compressed stream or trailer, not the header time stamp)',
+          'damage is any one file of the repository - a data file of any generation or an .index (not a .dat): removed, '
+          'truncated (seeded cut), or one byte altered (seeded position; for gzip files inside the compressed stream or '
+          'trailer, not the header time stamp); nothing is recorded about .index files, so their damage is exercised '
+          '(recovered bytes must still be exact) but neither verification nor the restored index is judged then',
+          'the clock of repozo ticks in steps of 1 s, 1 min, 1 h or 1 day (per replay); a truncated date is used where it '
+          'names a run\'s instant exactly',
           'transaction, persistent, zodbpickle trusted as installed']
 
 
@@ -214,7 +220,7 @@ def run(ctx):
     small = (0, 2, 9)
     jobs = [('design-16-options', cfg(ctx, 'design', consts(ALL_OPTS, 3, 5 if q else 6, 3), INVARIANTS), None, dict(timeout=900, workers=4))]
     if not q:
-        jobs.append(('design-5-options-4-chunks', cfg(ctx, 'design-deep', consts((0, 2, 5, 10, 15), 4, 8, 4), INVARIANTS), None,
+        jobs.append(('design-5-options-4-chunks', cfg(ctx, 'design-deep', consts((0, 2, 5, 10, 15), 4, 7, 4), INVARIANTS), None,
                      dict(timeout=1500, workers=6)))
     plain = lambda g: g.get('clause') == 'recover' and g.get('damage') == 'none' and g.get('date') != 'short'   # noqa: E731
     CX = (  # name, deviations set, invariant violated, sub-relation, what the code must show, constant decided
